@@ -24,6 +24,7 @@ KEY_ROLL = "cascade-rolling-buffer-stale-row:overread>1+slack"
 KEY_TALL = "pad-bottom-lost:ofm-stripe-end>ifm-height"
 KEY_READ = "read-offset-multiplied-by-stride"
 KEY_READROWS = "read-offset-rows-not-clamped-to-slice"
+KEY_ODD = "upscaled-operator-odd-stripe"
 
 
 def ntp(h, s, k):
@@ -449,8 +450,9 @@ def stripe_requests(rec):
     if len(rec["ifm_box"][0]) != 4 or len(rec["ofm_box"][0]) != 4:
         return None, "non_4d_box"
     wo = rec["write_offset"] or [0, 0, 0, 0]
-    ifm = rec["read_shape"] or rec["ifm_shape"]
     off = rec["read_offset"] or [0, 0, 0, 0]
+    # the slice an operator reads cannot extend past the stored tensor (a bypassed PAD leaves read_shape = padded shape)
+    ifm = [min(a, b - o) for a, b, o in zip(rec["read_shape"], rec["ifm_shape"], off)] if rec["read_shape"] else rec["ifm_shape"]
     ep = rec["explicit_padding"] or [0, 0, 0, 0]
     hp = rec["hw_pad"] or [0, 0, 0, 0]
     up = 1 if rec["mode"] == 0 else 2
@@ -460,6 +462,12 @@ def stripe_requests(rec):
         oshape = rec["write_shape"] or rec["ofm_shape"]
         if ifm[1] != oshape[1] or ifm[2] != oshape[2]:
             return None, "elementwise_broadcast"
+    oshape = rec["write_shape"] or rec["ofm_shape"]
+    if rec["mode"] == 0 and rec["block"] in CONV_LIKE:
+        for ax, (k_, s_, d_, p0, p1) in ((1, (kh, sy, dy, ep[0], ep[2])), (2, (kw, sx, dx, ep[1], ep[3]))):
+            if (ifm[ax] + p0 + p1 - ((k_ - 1) * d_ + 1)) // s_ + 1 < oshape[ax]:
+                # the operator's tensors are reinterpreted views (softmax / argmax lowerings): kernel and shapes do not describe rows/columns
+                return None, "inconsistent_view"
     (os_, oe), (is_, ie) = rec["ofm_box"], rec["ifm_box"]
     rows = f"recv {kh} {sy} {dy} {ep[0]} {ifm[1]} {off[1]} {up} {rec['mode']} {os_[1] - wo[1]} {oe[1] - os_[1]} {is_[1]} {ie[1]} {hp[0]} {hp[2]}"
     cols = f"recv {kw} {sx} {dx} {ep[1]} {ifm[2]} {off[2]} {up} {rec['mode']} {os_[2] - wo[2]} {oe[2] - os_[2]} {is_[2]} {ie[2]} {hp[1]} {hp[3]}"
@@ -487,8 +495,9 @@ def part_c(ck):
     import pipe_common
 
     L.install_profiles()
-    pipe_common.CORPUS = [c for c in pipe_common.CORPUS if c[0] != "known_pad_tall"] + [("known_pad_tall", 0, 0)]
-    n = 160 if not ck.thorough else 3000
+    pipe_common.CORPUS = [c for c in pipe_common.CORPUS if c[0] not in ("known_pad_tall", "known_odd_upscale")] + \
+        [("known_pad_tall", 0, 0), ("known_odd_upscale", 0, 0)]
+    n = 320 if not ck.thorough else 8000
     profiles = ["cascade_chain", "c10_pad_tall", "cascade", "c10_pool_chain", "c10_upscale", "c10_slice", "c10_dilated", "mixed",
                 "cascade_chain", "elementwise", "weights", "c10_pool_chain"]
     outs = pipe_common.run_corpus(ck, n, profiles=profiles, want={"extra": L.extract})
@@ -575,7 +584,9 @@ def part_c(ck):
                 corr_owner.append(("cascade", o, si, ci))
                 ck.count("C_cascades_len_%d" % min(c["n"], 4))
                 for bi, bf in enumerate(c["buffers"]):
-                    if len(bf["stor"]) == 4 and bf["stor"][1] < 10 ** 6:
+                    if len(bf["stor"]) == 4 and bf["stor"][1] >= bf["full_h"]:
+                        ck.count("C_buffer_stored_in_full")     # not a rolling buffer (the tensor is at most as tall as p + c)
+                    elif len(bf["stor"]) == 4:
                         corr.append("rbs %d %d %d %d %d" % (bf["p"][0], bf["p"][1], bf["p"][2], bf["c"][0], bf["c"][1]))
                         corr_real.append("%d %d %d" % (bf["stor"][1], bf["stor"][2], bf["stor"][3]))
                         corr_owner.append(("rbs", o, si, ci))
@@ -590,13 +601,22 @@ def net_replay(o, si):
             "how_to_replay": "check_C10.part_c: c10_lib.install_profiles(); pipe_common._worker((seed, index, profile, {'extra': c10_lib.extract}))"}
 
 
+def odd_stripe(rec):
+    """an OFM stripe of an upscaling operator that starts on an odd row, or ends on one without being the last"""
+    wo = rec["write_offset"] or [0, 0, 0, 0]
+    y0, y1 = rec["ofm_box"][0][1] - wo[1], rec["ofm_box"][1][1] - wo[1]
+    return y0 % 2 == 1 or (y1 % 2 == 1 and not rec["last"])
+
+
 def classify_net_stripe(rec, axis, verdict):
     """known-finding key for a receptive/coverage rejection of a compiled stripe"""
     ax = 1 if axis == "rows" else 2
     stride = rec["sy"] if axis == "rows" else rec["sx"]
-    if rec["read_offset"] is not None and rec["read_offset"][ax] != 0 and stride > 1 and rec["block"] in CONV_LIKE:
-        # the read offset of a fused slice is added to the OFM coordinate before the multiplication by the stride
+    if rec["read_offset"] is not None and rec["read_offset"][ax] != 0 and (stride > 1 or rec["mode"] != 0) and rec["block"] in CONV_LIKE:
+        # the read offset of a fused slice is added to the OFM coordinate before the scaling by the stride / upscaling factor
         return KEY_READ
+    if axis == "rows" and rec["mode"] != 0 and odd_stripe(rec):
+        return KEY_ODD
     if axis == "rows" and rec["read_offset"] is not None and rec["block"] in CONV_LIKE and rec["explicit_padding"] is not None:
         off, shp, full = rec["read_offset"][1], rec["read_shape"][1], rec["ifm_shape"][1]
         ep = rec["explicit_padding"]
@@ -604,7 +624,7 @@ def classify_net_stripe(rec, axis, verdict):
             # rows: the IFM box is clamped to the whole tensor, not to the slice the operator reads (columns are clamped to the slice)
             return KEY_READROWS
     if axis == "rows" and rec["mode"] == 0:
-        ifm = rec["read_shape"] or rec["ifm_shape"]
+        ifm = rec["ifm_shape"]
         wo = rec["write_offset"] or [0, 0, 0, 0]
         if rec["ofm_box"][1][1] - wo[1] > ifm[1] and not (rec["first"] and rec["last"]):
             return KEY_TALL
@@ -633,10 +653,10 @@ def classify_net_rolling(bad_line, recs):
             B = cons["ifm_B"]
             info = dict(p=p, q=q, c=c, B=B, s=cons["sy"], kdil=kdil, skirt_top=cons["skirt"][0], skirt_bottom=cons["skirt"][2],
                         over=cons["sy"] + cons["skirt"][0] + cons["skirt"][2] - kdil, slack=B - p - c, consumer=cons["name"])
-    ifm = cons["read_shape"] or cons["ifm_shape"]
+    ifm = cons["ifm_shape"]
     wo = cons["write_offset"] or [0, 0, 0, 0]
     rk = classify_net_stripe(cons, "rows", "")
-    if rk in (KEY_READ, KEY_READROWS):
+    if rk in (KEY_READ, KEY_READROWS, KEY_ODD):
         # the rows addressed are wrong because of the fused slice read (same defect as the receptive-field rejection of this stripe)
         return rk, info
     if (cons["mode"] == 0 and cons["block"] in CONV_LIKE and row >= ifm[1] and cons["ofm_box"][1][1] - wo[1] > ifm[1]
